@@ -8,6 +8,12 @@ package main
 //	                                      boss  string   fk index, cascade  -> A.minions (AddFkIndexCascadeDelete, self reference)
 //	                                      dep   *string  fk constraint      -> B         (AddFkConstraint, nullable?, cascade none|delete)
 //	store B ("owners", base path ["u"])   things fk-set (back-references of A.owner)
+//	store C: plain child store of A (entity path ["ext1"] inside A's entity bucket): tag *string, no constraints of
+//	         its own.  Create through it (also over an already existing plain A entity: the parent's old fk values are
+//	         captured and ProcessAfterUpdate runs with IsCreate = true), Update through it, Update through A is handed
+//	         to it by the registered ChildStoreUpdateHandler whenever child data exists, DeleteById through it goes to
+//	         A.DeleteById, which runs ProcessBeforeDelete of A's constraints TWICE for an entity with child data
+//	         (once inside the child store's processDeleteConstraints, once in A's own).
 //
 // Schema variant v (0..7): bit0 = dep cascades on delete (else restrict), bit1 = dep nullable,
 // bit2 = the dep constraint is wired before the indexes (changes the constraint order on A and B).
@@ -16,6 +22,8 @@ package main
 //
 //	tx  = op,op,...      (one bbolt transaction; the first failing op aborts and rolls it back)
 //	op  = cb:<id> | ca:<id>:<owner>:<boss>:<dep> | ua:<id>:<mask>:<owner>:<boss>:<dep> | da:<id> | db:<id>
+//	    | cc:<id>:<owner>:<boss>:<dep>:<tag> | uc:<id>:<mask>:<owner>:<boss>:<dep>:<tag> | dc:<id>     (through the child store;
+//	      tag like owner; mask additionally bit4 (16) = tag)
 //	      owner/dep: "~" = nil pointer, otherwise wire string ("-" = empty); boss: wire string
 //	      mask: bit0 owner, bit1 boss, bit2 dep are in the FieldChecker; 8 = nil checker (all fields)
 //
@@ -29,7 +37,8 @@ package main
 //
 // coarse = digest of: surviving ids of A and B (IterateIds), stored field values of every A,
 //
-//	GetRelatedEntitiesIdList(things) of every B and GetRelatedEntitiesIdList(minions) of every A.
+//	GetRelatedEntitiesIdList(things) of every B and GetRelatedEntitiesIdList(minions) of every A, and what the
+//	child store holds for every A (FindById through it: "!" = no child data, otherwise the tag).
 //
 // In verbose mode the two observation texts are printed instead of their digests.
 
@@ -75,6 +84,25 @@ func (e *c04B) GetId() string         { return e.Id }
 func (e *c04B) SetId(id string)       { e.Id = id }
 func (e *c04B) GetEntityType() string { return c04TypeB }
 
+// c04C: entity of the plain child store of A
+type c04C struct {
+	c04A
+	Tag *string
+}
+
+type c04CStrategy struct{ parent *boltz.BaseStore[*c04A] }
+
+func (s *c04CStrategy) NewEntity() *c04C { return &c04C{} }
+func (s *c04CStrategy) FillEntity(e *c04C, b *boltz.TypedBucket) {
+	_, err := s.parent.LoadEntity(b.Tx(), e.Id, &e.c04A)
+	b.SetError(err)
+	e.Tag = b.GetString("tag")
+}
+func (s *c04CStrategy) PersistEntity(e *c04C, ctx *boltz.PersistContext) {
+	s.parent.GetEntityStrategy().PersistEntity(&e.c04A, ctx.GetParentContext())
+	ctx.SetStringP("tag", e.Tag)
+}
+
 type c04AStrategy struct{}
 
 func (c04AStrategy) NewEntity() *c04A { return &c04A{} }
@@ -97,10 +125,12 @@ func (c04BStrategy) PersistEntity(*c04B, *boltz.PersistContext) {}
 
 type c04AStore struct{ *boltz.BaseStore[*c04A] }
 type c04BStore struct{ *boltz.BaseStore[*c04B] }
+type c04CStore struct{ *boltz.BaseStore[*c04C] }
 
 type c04Stores struct {
 	a *c04AStore
 	b *c04BStore
+	c *c04CStore
 }
 
 func c04NewStores(variant int) *c04Stores {
@@ -140,7 +170,36 @@ func c04NewStores(variant int) *c04Stores {
 	if variant&4 == 0 {
 		a.AddFkConstraint(dep, nullable, cascade)
 	}
-	return &c04Stores{a: a, b: b}
+
+	// the plain child store of A: its own data lives in <entity bucket>/ext1
+	c := &c04CStore{BaseStore: boltz.NewBaseStore(boltz.StoreDefinition[*c04C]{
+		EntityStrategy: &c04CStrategy{parent: a.BaseStore},
+		BasePath:       []string{"ext1"},
+		Parent:         a,
+		ParentMapper: func(e boltz.Entity) boltz.Entity {
+			if x, ok := e.(*c04C); ok {
+				return &x.c04A
+			}
+			return e
+		},
+		EntityNotFoundF: func(id string) error { return boltz.NewNotFoundError(c04TypeA, "id", id) },
+	})}
+	c.InitImpl(c)
+	a.GrantSymbols(c)
+	c.AddSymbol("tag", ast.NodeTypeString)
+	// an update through A of an entity that has child data is carried out by the child store (new parent values,
+	// stored tag); deletes through A run the child store's delete constraints first
+	a.RegisterChildStoreStrategy(&boltz.ChildStoreUpdateHandler[*c04A, *c04C]{
+		Store: c,
+		Mapper: func(ctx boltz.MutateContext, p *c04A) (*c04C, bool) {
+			cur, found, _ := c.FindById(ctx.Tx(), p.Id)
+			if !found || cur == nil {
+				return nil, false
+			}
+			return &c04C{c04A: *p, Tag: cur.Tag}, true
+		},
+	})
+	return &c04Stores{a: a, b: b, c: c}
 }
 
 var c04StoreCache = map[int]*c04Stores{}
@@ -232,6 +291,8 @@ func (c c04Checker) IsUpdated(f string) bool {
 		return c.mask&2 != 0
 	case "dep":
 		return c.mask&4 != 0
+	case "tag":
+		return c.mask&16 != 0
 	}
 	return false
 }
@@ -250,6 +311,19 @@ func c04Apply(st *c04Stores, ctx boltz.MutateContext, op string) error {
 			checker = c04Checker{mask: mask}
 		}
 		return st.a.Update(ctx, &c04A{Id: fromWire(f[1]), Owner: c04OptStr(f[3]), Boss: fromWire(f[4]), Dep: c04OptStr(f[5])}, checker)
+	case "cc":
+		return st.c.Create(ctx, &c04C{c04A: c04A{Id: fromWire(f[1]), Owner: c04OptStr(f[2]), Boss: fromWire(f[3]), Dep: c04OptStr(f[4])},
+			Tag: c04OptStr(f[5])})
+	case "uc":
+		mask, _ := strconv.Atoi(f[2])
+		var checker boltz.FieldChecker
+		if mask&8 == 0 {
+			checker = c04Checker{mask: mask}
+		}
+		return st.c.Update(ctx, &c04C{c04A: c04A{Id: fromWire(f[1]), Owner: c04OptStr(f[3]), Boss: fromWire(f[4]), Dep: c04OptStr(f[5])},
+			Tag: c04OptStr(f[6])}, checker)
+	case "dc":
+		return st.c.DeleteById(ctx, fromWire(f[1]))
 	case "da":
 		return st.a.DeleteById(ctx, fromWire(f[1]))
 	case "db":
@@ -357,8 +431,20 @@ func c04Observe(db *bbolt.DB, st *c04Stores) (fine, coarse string, nA, nB int) {
 			if bk := st.a.GetEntityBucket(btx, []byte(id)); bk != nil {
 				boss = c04FV(bk.GetString("boss"))
 			}
+			ext := "!"
+			if ce, cfound, cerr := st.c.FindById(btx, id); cerr != nil {
+				ext = "unreadable"
+			} else if cfound {
+				ext = c04FV(ce.Tag)
+				if c04FV(ce.Owner) != c04FV(e.Owner) || ce.Boss != e.Boss || c04FV(ce.Dep) != c04FV(e.Dep) {
+					ext += "/parent-fields-differ"
+				}
+			}
+			if st.c.IsEntityPresent(btx, id) != (ext != "!") {
+				ext += "/presence-differs"
+			}
 			cl = append(cl, "A:"+toWire(id)+":"+c04FV(e.Owner)+":"+boss+":"+c04FV(e.Dep)+":"+
-				c04HexList(st.a.GetRelatedEntitiesIdList(btx, id, "minions")))
+				c04HexList(st.a.GetRelatedEntitiesIdList(btx, id, "minions"))+":"+ext)
 		}
 		for _, id := range bIds {
 			cl = append(cl, "B:"+toWire(id)+":"+c04HexList(st.b.GetRelatedEntitiesIdList(btx, id, "things")))
@@ -432,10 +518,12 @@ var c04Pool = []string{
 type c04Shadow struct {
 	boss, owner, dep map[string]string
 	b                map[string]bool
+	ext              map[string]bool // A ids with child-store data
 }
 
 func c04NewShadow() *c04Shadow {
-	return &c04Shadow{boss: map[string]string{}, owner: map[string]string{}, dep: map[string]string{}, b: map[string]bool{}}
+	return &c04Shadow{boss: map[string]string{}, owner: map[string]string{}, dep: map[string]string{}, b: map[string]bool{},
+		ext: map[string]bool{}}
 }
 
 func (sh *c04Shadow) clone() *c04Shadow {
@@ -451,6 +539,9 @@ func (sh *c04Shadow) clone() *c04Shadow {
 	}
 	for k := range sh.b {
 		n.b[k] = true
+	}
+	for k := range sh.ext {
+		n.ext[k] = true
 	}
 	return n
 }
@@ -510,11 +601,13 @@ func (sh *c04Shadow) deleteA(id string) {
 			delete(sh.boss, k)
 			delete(sh.owner, k)
 			delete(sh.dep, k)
+			delete(sh.ext, k)
 		}
 	}
 	delete(sh.boss, id)
 	delete(sh.owner, id)
 	delete(sh.dep, id)
+	delete(sh.ext, id)
 }
 
 type c04GenCtx struct {
@@ -568,6 +661,139 @@ func (g *c04GenCtx) pickBoss(self string, avoidSubtreeOf string) string {
 	}
 }
 
+// fkOk: would the shadow accept these fk values for entity id
+func (g *c04GenCtx) fkOk(id, owner string, ownerNil bool, boss, dep string, depNil bool) bool {
+	sh := g.sh
+	depNullable := g.variant&2 != 0
+	_, bossOk := sh.boss[boss]
+	return (bossOk || boss == id) && boss != "" && (ownerNil || owner == "" || sh.b[owner]) &&
+		(((depNil || dep == "") && depNullable) || (!depNil && dep != "" && sh.b[dep]))
+}
+
+// genChildCreate: Create through the child store — over an existing plain parent (fk values equal / changed /
+// cleared), for a fresh id, or over an entity that already has child data (refused)
+func (g *c04GenCtx) genChildCreate() (string, bool) {
+	r, sh := g.r, g.sh
+	depNullable := g.variant&2 != 0
+	var plain []string
+	for _, k := range c04Keys(sh.boss) {
+		if !sh.ext[k] {
+			plain = append(plain, k)
+		}
+	}
+	tag, tagNil := pick(r, []string{"t", "", "a\"b"}), r.chance(1, 4)
+	var id, owner, boss, dep string
+	var ownerNil, depNil bool
+	mode := r.intn(10)
+	switch {
+	case mode < 6 && len(plain) > 0:
+		id = pick(r, plain)
+		owner, boss, dep = sh.owner[id], sh.boss[id], sh.dep[id]
+		ownerNil, depNil = owner == "" && r.chance(2, 3), dep == "" && r.chance(2, 3)
+		switch sub := r.intn(10); {
+		case sub < 4: // every fk value as stored
+		case sub < 6: // one value changed
+			switch r.intn(3) {
+			case 0:
+				owner, ownerNil = g.pickB(true)
+			case 1:
+				boss = g.pickBoss(id, id)
+			default:
+				dep, depNil = g.pickB(depNullable || r.chance(1, 8))
+			}
+		case sub < 8: // all changed
+			owner, ownerNil = g.pickB(true)
+			boss = g.pickBoss(id, id)
+			dep, depNil = g.pickB(depNullable || r.chance(1, 8))
+		default: // cleared where that is possible
+			owner, ownerNil = "", r.chance(1, 2)
+			if depNullable || r.chance(1, 6) {
+				dep, depNil = "", r.chance(1, 2)
+			}
+			if r.chance(1, 8) {
+				boss = ""
+			}
+		}
+	case mode < 9 || len(sh.ext) == 0:
+		id = pick(r, g.aPool)
+		for _, c := range g.aPool {
+			if _, used := sh.boss[c]; !used && r.chance(3, 4) {
+				id = c
+				break
+			}
+		}
+		owner, ownerNil = g.pickB(true)
+		dep, depNil = g.pickB(depNullable || r.chance(1, 8))
+		boss = g.pickBoss(id, "")
+	default:
+		id = pick(r, c04BKeys(sh.ext))
+		owner, boss, dep = sh.owner[id], sh.boss[id], sh.dep[id]
+		ownerNil, depNil = owner == "", dep == ""
+	}
+	ok := !sh.ext[id] && g.fkOk(id, owner, ownerNil, boss, dep, depNil)
+	if ok {
+		if ownerNil {
+			owner = ""
+		}
+		if depNil {
+			dep = ""
+		}
+		sh.boss[id], sh.owner[id], sh.dep[id], sh.ext[id] = boss, owner, dep, true
+	}
+	return "cc:" + toWire(id) + ":" + c04Opt(owner, ownerNil) + ":" + toWire(boss) + ":" + c04Opt(dep, depNil) + ":" + c04Opt(tag, tagNil), ok
+}
+
+// genChildUpdate: Update through the child store (not found without child data)
+func (g *c04GenCtx) genChildUpdate() (string, bool) {
+	r, sh := g.r, g.sh
+	depNullable := g.variant&2 != 0
+	id := pick(r, c04Keys(sh.boss))
+	if ex := c04BKeys(sh.ext); len(ex) > 0 && r.chance(5, 6) {
+		id = pick(r, ex)
+	}
+	mask := pick(r, []int{1, 2, 2, 4, 16, 17, 18, 3, 6, 7, 23, 8, 24, 0})
+	owner, ownerNil := g.pickB(true)
+	dep, depNil := g.pickB(depNullable || r.chance(1, 8))
+	boss := g.pickBoss(id, id)
+	tag, tagNil := pick(r, []string{"t", "u", ""}), r.chance(1, 4)
+	all := mask&8 != 0
+	nb, no, nd := sh.boss[id], sh.owner[id], sh.dep[id]
+	ok := sh.ext[id]
+	if ok {
+		if mask&2 != 0 || all {
+			_, bossOk := sh.boss[boss]
+			if boss != nb && (!bossOk || boss == "") {
+				ok = false
+			}
+			nb = boss
+		}
+		if mask&1 != 0 || all {
+			o := owner
+			if ownerNil {
+				o = ""
+			}
+			if !(o == "" || sh.b[o] || o == no) {
+				ok = false
+			}
+			no = o
+		}
+		if mask&4 != 0 || all {
+			d := dep
+			if depNil {
+				d = ""
+			}
+			if !((d == "" && (depNullable || nd == "")) || (d != "" && sh.b[d]) || d == nd) {
+				ok = false
+			}
+			nd = d
+		}
+		if ok {
+			sh.boss[id], sh.owner[id], sh.dep[id] = nb, no, nd
+		}
+	}
+	return "uc:" + toWire(id) + ":" + strconv.Itoa(mask) + ":" + c04Opt(owner, ownerNil) + ":" + toWire(boss) + ":" + c04Opt(dep, depNil) + ":" + c04Opt(tag, tagNil), ok
+}
+
 // genOp returns the operation and whether the shadow expects it to succeed
 func (g *c04GenCtx) genOp() (string, bool) {
 	r, sh := g.r, g.sh
@@ -578,12 +804,19 @@ func (g *c04GenCtx) genOp() (string, bool) {
 		x = 0
 	}
 	switch {
-	case x < 10:
+	case x < 8:
 		id := pick(r, g.bPool)
 		ok := !sh.b[id]
 		sh.b[id] = true
 		return "cb:" + toWire(id), ok
-	case x < 44 || len(aEx) == 0:
+	case x >= 34 && x < 46 && len(aEx) > 0:
+		return g.genChildCreate()
+	case x >= 64 && x < 72 && len(aEx) > 0:
+		if len(sh.ext) == 0 && r.chance(4, 5) {
+			return g.genChildCreate()
+		}
+		return g.genChildUpdate()
+	case x < 34 || len(aEx) == 0:
 		id := pick(r, g.aPool)
 		if _, ok := sh.boss[id]; ok && r.chance(4, 5) {
 			// prefer a fresh id
@@ -607,7 +840,7 @@ func (g *c04GenCtx) genOp() (string, bool) {
 			sh.dep[id] = dep
 		}
 		return "ca:" + toWire(id) + ":" + c04Opt(owner, ownerNil) + ":" + toWire(boss) + ":" + c04Opt(dep, depNil), ok
-	case x < 74:
+	case x < 64:
 		id := pick(r, aEx)
 		if r.chance(1, 15) {
 			id = pick(r, g.aPool)
@@ -654,6 +887,18 @@ func (g *c04GenCtx) genOp() (string, bool) {
 		switch {
 		case r.chance(1, 15):
 			id = pick(r, g.aPool)
+		case r.chance(1, 4):
+			// an entity with child data: ProcessBeforeDelete runs twice; preferably one whose boss refers back to it
+			// (the second round then finds the boss deleted by the first round's cascade, /repo 001d2d2)
+			if ex := c04BKeys(sh.ext); len(ex) > 0 {
+				id = pick(r, ex)
+				for _, c := range ex {
+					if b := sh.boss[c]; b != c && sh.inSubtree(c, b) && r.chance(2, 3) {
+						id = c
+						break
+					}
+				}
+			}
 		case r.chance(2, 5):
 			// prefer the entity with the most transitive referrers (roots are self references: cycles)
 			best := -1
@@ -671,7 +916,11 @@ func (g *c04GenCtx) genOp() (string, bool) {
 		}
 		_, ok := sh.boss[id]
 		sh.deleteA(id)
-		return "da:" + toWire(id), ok
+		verb := "da:"
+		if r.chance(1, 4) {
+			verb = "dc:" // through the child store (goes to the parent's DeleteById)
+		}
+		return verb + toWire(id), ok
 	default:
 		id := pick(r, g.bPool)
 		if ex := c04BKeys(sh.b); len(ex) > 0 && r.chance(7, 8) {
@@ -714,6 +963,10 @@ func c04GenHistory(r *rng, out *bufio.Writer, hostile bool) {
 	}
 	for i := 0; i < nb; i++ {
 		g.bPool = append(g.bPool, pick(r, pool))
+	}
+	if r.chance(1, 2) {
+		// an id that names an entity in BOTH stores (a dep / owner reference between entities with byte-equal ids)
+		g.bPool[0] = g.aPool[r.intn(len(g.aPool))]
 	}
 	ntx := 6 + r.intn(26)
 	fmt.Fprintf(out, "h %d", g.variant)
@@ -797,6 +1050,19 @@ func c04GenScripts(out *bufio.Writer) {
 			// re-parenting away from x before deleting it, null-out of owner
 			fmt.Fprintf(out, "%s cb:%s ca:%s:%s:%s:%s ca:%s:%s:%s:%s ca:%s:~:%s:%s ua:%s:2::%s: ua:%s:1:~:: da:%s db:%s\n",
 				pre, w(y), w(x), w(y), w(r), w(k), w(m1), w(y), w(x), w(k), w(m2), w(x), w(k), w(m1), w(r), w(m1), w(x), w(y))
+			// child store.  Promote x (create through the child store over the existing plain entity) with every
+			// reference unchanged: y must still list x (restrict refuses), r's cascade must still take x
+			fmt.Fprintf(out, "%s cb:%s ca:%s:%s:%s:%s ca:%s:~:%s:%s cc:%s:%s:%s:%s:74 db:%s dc:%s da:%s db:%s\n",
+				pre, w(y), w(x), w(y), w(r), w(k), w(m1), w(x), w(k), w(x), w(y), w(r), w(k), w(y), w(m1), w(r), w(y))
+			// promote with changed / cleared references, update through the child store and (handed over) through A
+			fmt.Fprintf(out, "%s cb:%s ca:%s:%s:%s:%s ca:%s:~:%s:%s cc:%s:~:%s:%s:~ db:%s cb:%s uc:%s:17:%s:%s:~:75 db:%s ua:%s:1:~::~ db:%s da:%s\n",
+				pre, w(y), w(x), w(y), w(r), w(k), w(m1), w(r), w(k), w(x), w(m1), w(k), w(y), w(y), w(x), w(y), w(m1), w(y), w(x), w(y), w(m1))
+			// delete of an entity with child data (both ProcessBeforeDelete rounds), minions with and without child data
+			fmt.Fprintf(out, "%s cb:%s cc:%s:%s:%s:%s:74 ca:%s:%s:%s:%s cc:%s:~:%s:%s:~ ca:%s:~:%s:%s da:%s db:%s\n",
+				pre, w(y), w(x), w(y), w(r), w(k), w(m1), w(y), w(x), w(k), w(m2), w(m1), w(k), w(u), w(r), w(k), w(x), w(y))
+			// the same id in both stores: A entity x refers to B entity x through dep (and m1 through owner)
+			fmt.Fprintf(out, "h %d cb:%s cb:%s ca:%s:~:%s:%s cc:%s:%s:%s:%s:~ db:%s ua:%s:1:~::~ db:%s\n",
+				v, w(x), w(k), w(x), w(x), w(x), w(m1), w(x), w(x), w(k), w(x), w(m1), w(x))
 		}
 	}
 }
